@@ -41,12 +41,17 @@ class Run:
         flat, index = [], []
         for pi, (ls, _, _, _, _) in enumerate(self.props):
             index.append((len(flat), len(ls))); flat += ls
-        pout, perr, prc = run_lines(exe, flat) if flat else ([], '', 0)
-        if flat and (pout is None or prc != 0 or len(pout) != len(flat)):
-            k, err = isolate_crash(exe, flat, len(pout or []))
-            violations.append((write_replay(ctx.pid, 'prop', flat[k] if k is not None else '', 'no crash', err or (perr or '')[-2000:],
-                                            'implementation crashed / sanitizer report / assertion'), True))
-            pout = (pout or []) + [''] * (len(flat) - len(pout or []))
+        pout = []
+        for c0 in range(0, len(flat), 2000):                      # chunks, each under its own time limit
+            part = flat[c0:c0 + 2000]
+            po, perr, prc = run_lines(exe, part)
+            if po is None or prc != 0 or len(po) != len(part):
+                k, err = isolate_crash(exe, part, len(po or []))
+                if len(violations) < 3:
+                    violations.append((write_replay(ctx.pid, 'prop', part[k] if k is not None else '', 'no crash', err or (perr or '')[-2000:],
+                                                    'implementation crashed / sanitizer report / assertion'), True))
+                po = (po or []) + [''] * (len(part) - len(po or []))
+            pout += po
         bad = collections.defaultdict(list)
         for pi, (ls, oracle, what, tags, shrink) in enumerate(self.props):
             s, n = index[pi]
